@@ -18,3 +18,4 @@ from contracts import fields as F2
 UNITS += [F2.unit_validate_characters().also("C17"), FT.unit_datetime_init().also("C17")]
 from props import _groups as _G
 UNITS = _G.with_groups(PROPERTY, UNITS, _G.READERS, _G.VALIDATION, _G.CID, _G.FIELD_DECLS, _G.FIELD_VALUES)
+UNITS += [OD.unit_ods_audit().also("C17")]
